@@ -35,7 +35,7 @@ def main():
     res = latest()
     out = []
     kf = json.load(open(os.path.join(ROOT, "known_findings.json")))["findings"]
-    out.append("### 5.1 Reverting each of the ten fixes (the original defects)\n")
+    out.append("### 5.1 Reverting each of the twelve fixes (the original defects)\n")
     out.append("| revert of | defect | checks run (quick tier) |")
     out.append("|---|---|---|")
     for i, f in enumerate(kf, 1):
